@@ -529,16 +529,29 @@ class Engine(object):
     def fail(self, label, msg=""):
         self.ensure(label + (": " + msg if msg else ""), False)
 
+    def undecided(self, label, why):
+        """the engine cannot decide this clause on this path (tool limit, never a violation)"""
+        self.obligations.append(Obligation(label, None, len(self.facts), "harness-error"))
+        self.notes.append("undecided: " + why)
+        self.pending_why = why
+
     # running the real code
     def call(self, fn, *a, **k):
-        try:
-            return Outcome("ret", fn(*a, **k))
-        except (Infeasible, PathLimit):
-            raise
-        except RecursionError:
-            raise
-        except Exception as e:  # the real code raised
-            return Outcome("exc", e)
+        """run the real code; every library object passed to the call (arguments, receiver, closure of a lambda) must be
+        structurally unchanged afterwards unless listed in _mutates=(...) - the frame condition of C20, checked on every path"""
+        mutates = k.pop("_mutates", ())
+
+        def run():
+            try:
+                return Outcome("ret", fn(*a, **k))
+            except (Infeasible, PathLimit):
+                raise
+            except RecursionError:
+                raise
+            except Exception as e:  # the real code raised
+                return Outcome("exc", e)
+
+        return _auto_frame(self, fn, a, k, mutates, run)
 
     def hit(self, target):
         self.stub_hits[target] = self.stub_hits.get(target, 0) + 1
@@ -594,6 +607,47 @@ def mutable_ids(obj, acc=None):
             mutable_ids(x, acc)
     return acc
 
+
+
+
+def _lib_objects(fn, args, kwargs):
+    """library objects reachable as arguments of a call: positional / keyword arguments, the receiver of a bound
+    method and the closure cells of a lambda (harnesses write `vc.call(lambda: x in s)`)"""
+    out = []
+
+    def add(o, depth=0):
+        if o is None or isinstance(o, (Sym, int, float, str, Fraction, bool)):
+            return
+        if isinstance(o, (list, tuple)) and depth < 2:
+            for x in o:
+                add(x, depth + 1)
+            return
+        if type(o).__module__.startswith("Geometry3D.") and not isinstance(o, type) and all(o is not p for p in out):
+            out.append(o)
+
+    for a in args:
+        add(a)
+    for a in (kwargs or {}).values():
+        add(a)
+    if getattr(fn, "__self__", None) is not None:
+        add(fn.__self__)
+    for cell in (getattr(fn, "__closure__", None) or ()):
+        try:
+            add(cell.cell_contents)
+        except ValueError:
+            pass
+    return out
+
+
+def _auto_frame(vc, fn, a, k, mutates, run):
+    objs = [o for o in _lib_objects(fn, a, k) if all(o is not m for m in mutates)]
+    before = [snapshot(o) for o in objs]
+    out = run()
+    same = all(snapshot(o) == b for o, b in zip(objs, before))
+    if objs:
+        changed = [type(o).__name__ for o, b in zip(objs, before) if snapshot(o) != b]
+        vc.ensure("frame: operands of the call are unchanged" + ("" if same else " (changed: %s)" % ", ".join(changed)), same, kind="frame")
+    return out
 
 # ---------------------------------------------------------------------------
 # exploring a harness
@@ -684,6 +738,7 @@ def run_group(name, harness, stubs=(), patches=True, feas_timeout_ms=3000, prove
             setup(rb)
         work = [[]]
         probes_done = set()
+        harness_errors = []
         while work:
             prefix = work.pop()
             if res.paths + res.infeasible >= max_paths:
@@ -696,6 +751,14 @@ def run_group(name, harness, stubs=(), patches=True, feas_timeout_ms=3000, prove
                 res.infeasible += 1
                 work.extend(eng.new_work)
                 continue
+            except (PathLimit, KeyboardInterrupt):
+                raise
+            except Exception as e:
+                # the harness itself failed on this path (e.g. the code under verification no longer has the shape the
+                # proof script expects): the clauses registered so far are still decided, the rest of the path is undecided
+                eng.obligations.append(Obligation("harness completed on this path", None, len(eng.facts), "harness-error"))
+                eng.notes.append("harness error: %r" % (e,))
+                harness_errors.append("%s\n%s" % (e, traceback.format_exc()[-900:]))
             work.extend(eng.new_work)
             res.paths += 1
             # vacuity guard: the path condition (with all assumptions) is satisfiable
@@ -709,6 +772,10 @@ def run_group(name, harness, stubs=(), patches=True, feas_timeout_ms=3000, prove
                 if tag.startswith("admission:"):
                     res.admissions.add(tag[len("admission:"):])
             for ob in eng.obligations:
+                if ob.kind == "harness-error":
+                    why = getattr(eng, "pending_why", None) or ("harness error: " + (harness_errors[-1].splitlines()[0] if harness_errors else ""))
+                    res.obligations.append(dict(label=ob.label, kind=ob.kind, path=pathdesc, status="undecided", backend="-", seconds=0.0, detail=why))
+                    continue
                 if label_filter and not any(k in ob.label for k in label_filter):
                     continue  # this group is registered for a subset of its clauses (e.g. the frame clauses for C20)
                 if ob.kind == "must-fail":
@@ -828,10 +895,15 @@ class ConcreteVC(object):
         self.ensure(label + (": " + msg if msg else ""), False)
 
     def call(self, fn, *a, **k):
-        try:
-            return Outcome("ret", fn(*a, **k))
-        except Exception as e:
-            return Outcome("exc", e)
+        mutates = k.pop("_mutates", ())
+
+        def run():
+            try:
+                return Outcome("ret", fn(*a, **k))
+            except Exception as e:
+                return Outcome("exc", e)
+
+        return _auto_frame(self, fn, a, k, mutates, run)
 
     def hit(self, target):
         pass
